@@ -98,7 +98,7 @@ theorem code_cdf {μ l : ℝ} (hl : 0 ≤ l) (x : ℝ) : |esl_exp_cdf x μ l - e
   split_ifs with h1 h2
   · norm_num
   · have hy0 : 0 ≤ l * (x - μ) := mul_nonneg hl (by linarith)
-    have hy1 : l * (x - μ) < 5e-9 := by norm_num at h2 ⊢; exact h2
+    have hy1 : l * (x - μ) ≤ 5e-9 := by norm_num at h2 ⊢; first | exact h2 | exact le_of_lt h2
     have := one_sub_exp_neg_approx (t := l * (x - μ)) (by rw [abs_of_nonneg hy0]; linarith)
     have hsq : (l * (x - μ)) ^ 2 ≤ 2.5e-17 := by nlinarith
     exact le_trans this hsq
@@ -137,10 +137,10 @@ theorem code_logcdf {μ l x : ℝ} (hl : 0 < l) (hx : μ < x) :
   rw [if_neg (not_lt.mpr (le_of_lt hx)), if_neg (not_lt.mpr (le_of_lt hx))]
   rw [if_neg (by rw [num_eqb]; exact ne_of_gt hy)]
   split_ifs with h2 h3
-  · have hy1 : l * (x - μ) < 5e-9 := by norm_num at h2 ⊢; exact h2
+  · have hy1 : l * (x - μ) ≤ 5e-9 := by norm_num at h2 ⊢; first | exact h2 | exact le_of_lt h2
     have := log_one_sub_exp_neg_approx hy (by linarith)
     linarith
-  · have hc1 : exp (-(l * (x - μ))) < 5e-9 := by norm_num at h3 ⊢; exact h3
+  · have hc1 : exp (-(l * (x - μ))) ≤ 5e-9 := by norm_num at h3 ⊢; first | exact h3 | exact le_of_lt h3
     have hc0 : 0 ≤ exp (-(l * (x - μ))) := le_of_lt (exp_pos _)
     have := log_one_sub_approx hc0 (by linarith)
     have e : -exp (-(l * (x - μ))) - log (1 - exp (-(l * (x - μ)))) = -(log (1 - exp (-(l * (x - μ)))) + exp (-(l * (x - μ)))) := by ring
